@@ -87,3 +87,39 @@ def canary(run, relfile, qual, make_contract, engine_setup=None):
         if eng.solve(o) != "proved":
             return True     # refuted as it must be
     return False
+
+
+def structural_spmd(run, relfiles, group, only=None):
+    """Structural SPMD obligations (pyvc/spmd.py) for every function of the given files; returns the failed ones."""
+    import ast
+    from pyvc import spmd
+    failed = []
+    for rel in relfiles:
+        src = open(run.src(rel)).read()
+        tree = ast.parse(src)
+        for name, f in spmd.all_functions(tree):
+            if only and name not in only:
+                continue
+            obs = spmd.collective_alignment(f) + spmd.io_ownership(f)
+            if not obs:
+                continue
+            fq = "esr/%s::%s" % (rel, name)
+            run.add_function(fq, rel, note="structural SPMD obligations (collective alignment, rank-0 / per-rank ownership of writes)")
+            for desc, ok, line in obs:
+                run.add_obligation("%s/%s" % (name, desc), fq, "proved" if ok else "refuted", "pyvc.spmd (AST taint analysis)", 0.0, desc)
+                if not ok:
+                    failed.append((fq, desc, line))
+    # interprocedural: calls of functions that may execute collectives
+    trees = {}
+    for rel in relfiles:
+        trees[rel.split("/")[-1][:-3]] = ast.parse(open(run.src(rel)).read())
+    relof = {rel.split("/")[-1][:-3]: rel for rel in relfiles}
+    for (mod, name), desc, ok, line in spmd.call_alignment(trees):
+        if only and name not in only:
+            continue
+        fq = "esr/%s::%s" % (relof[mod], name)
+        run.add_function(fq, relof[mod], note="structural SPMD obligations (collective alignment, rank-0 / per-rank ownership of writes)")
+        run.add_obligation("%s/%s" % (name, desc), fq, "proved" if ok else "refuted", "pyvc.spmd (AST taint analysis)", 0.0, desc)
+        if not ok:
+            failed.append((fq, desc, line))
+    return failed
